@@ -108,7 +108,9 @@ theorem C09_shared_unsafe :
 /-- **`a + b` is pure** (with the target the source has now): nothing that existed before the
 operation is modified — so `a`, `b` and every child keep their abstraction — and the result is a
 fresh object whose children are the abstractions of `a`'s children followed by those of the
-elements of `b` (copies). `bl` is the list iterated (the children list of `b`, or `b` itself). -/
+elements of `b` (copies), and everything reachable from the result is freshly allocated or
+immutable (it shares no mutable object with `a` or `b`). `bl` is the list iterated (the children
+list of `b`, or `b` itself). -/
 theorem C09_add_pure {tr : Nat → Nat → Treat} {n vf : Nat} {h h2 : Store} {a bl c ta : Nat}
     (wf : WF h) (adqa : AdequateFrom tr h a)
     (hka : kidsLoc vf h a = some ta)
@@ -119,7 +121,8 @@ theorem C09_add_pure {tr : Nat → Nat → Treat} {n vf : Nat} {h h2 : Store} {a
     (e : kvAdd Gen.Copy.kvAddTarget tr n vf h a bl = some (h2, c)) :
     Keeps h h2 ∧ h.length ≤ c ∧
     (∀ m x, x < h.length → abs m h2 x = abs m h x) ∧
-    (∀ m, kidsAbs m vf h2 c = kidsAbs m vf h a ++ (listElems h bl).map (absSlot (abs m h))) := by
+    (∀ m, kidsAbs m vf h2 c = kidsAbs m vf h a ++ (listElems h bl).map (absSlot (abs m h))) ∧
+    (∀ x, Reach h2 c x → h.length ≤ x ∨ IsImm h2 x) := by
   rw [C09_add_target] at e
   exact kvAdd_pure wf adqa hka hma hmta hbl adqb e
 
